@@ -3,7 +3,9 @@ import AsynqModel.Proofs.Futures
 /-!
 # C10  A future is completed at most once and reports one consistent outcome
 
-Theorems about the model `AsynqModel.Futures` for every future kind and every history of operations.
+Theorems about the model `AsynqModel.Futures` for every future kind of the model (Future with a returning / raising /
+self-completing provider, ConstFuture, ErrorFuture, AsyncTask with a non-blocking body) and every history of operations.
+Batches, batch items and blocking tasks are not kinds of this model.
 -/
 namespace AsynqModel.Futures
 
@@ -12,22 +14,64 @@ theorem C10_single_assignment (f : Fut) (o : Outc) (op : Op) (h : f.out = some o
     (step f op).1.out = some o := by
   cases op <;> simp_all [step] <;> (repeat' split) <;> simp_all
 
-/-- a second `set_value` / `set_error` raises FutureIsAlreadyComputed, changes nothing and notifies nobody -/
-theorem C10_failed_set_noop (f : Fut) (o : Outc) (h : f.out = some o) (x : Nat) :
-    step f (.setValue x) = (f, .raised .alreadyComputed, []) ∧
-    step f (.setError x) = (f, .raised .alreadyComputed, []) := by
-  simp [step, h]
+def Op.isSet : Op → Bool
+  | .setValue _ | .setError _ | .setErrorNone => true
+  | _ => false
 
-/-- once computed, `value()`, `error()`, calling the future and `is_computed()` report that outcome and
-    change nothing (in particular the provider does not run again) -/
-theorem C10_reads_stable (f : Fut) (o : Outc) (h : f.out = some o) :
-    step f .value = (f, readValue o, []) ∧ step f .call = (f, readValue o, []) ∧
-    step f .error = (f, readError o, []) ∧ step f .isComputed = (f, .bool true, []) := by
-  simp [step, h]
+/-- **from then on**: once a future holds `o` (ANY state `f`, reachable or not), every observation of every history
+    without `reset_unsafe()` shows the same outcome, notifies nobody and does not run the computation; `value()` / call /
+    `error()` / `is_computed()` report `o`, every `set_value` / `set_error` raises FutureIsAlreadyComputed.
+    (The one-step facts - `computed_step` in Proofs/Futures.lean - are immediate from the definition of `step`; the content
+    here is the induction over the history, in which subscriptions come and go.) -/
+theorem C10_stable_until_reset (ops : List Op) (f : Fut) (o : Outc) (h : f.out = some o) (hr : .reset ∉ ops) :
+    (finalState f ops).out = some o ∧ (finalState f ops).runs = f.runs ∧
+    ∀ ob ∈ run f ops, ob.after = some o ∧ ob.cbs = [] ∧ ob.runs = f.runs ∧
+      ((ob.op = .value ∨ ob.op = .call) → ob.res = readValue o) ∧ (ob.op = .error → ob.res = readError o) ∧
+      (ob.op = .isComputed → ob.res = .bool true) ∧ (ob.op.isSet = true → ob.res = .raised .alreadyComputed) := by
+  induction ops generalizing f with
+  | nil => simp [finalState, run, h]
+  | cons op ops ih =>
+    have hop : op ≠ .reset := fun e => hr (by simp [e])
+    have hrest : .reset ∉ ops := fun e => hr (by simp [e])
+    obtain ⟨h1, h2, _, h4, h5⟩ := computed_step f o op h hop
+    obtain ⟨i1, i2, i3⟩ := ih (observe f op).1 (by simpa [observe_fst] using h1) hrest
+    simp only [observe_fst] at i1 i2 i3
+    refine ⟨by simpa [finalState, observe_fst] using i1, by simp [finalState, observe_fst, i2, h2], ?_⟩
+    intro ob hob
+    simp only [run, List.mem_cons] at hob
+    rcases hob with rfl | hob
+    · simp only [observe, h1, h2, h4, h5, true_and]
+      cases op <;> simp_all [stableRes, Op.isSet]
+    · have := i3 ob (by simpa [observe_fst] using hob)
+      simpa [h2] using this
+
+/-- ConstFuture and ErrorFuture are complete from construction and, without `reset_unsafe()`, stay exactly so through
+    every history: each observation shows the constructor's outcome, no notification (their `on_computed` is the sinking
+    hook) and no computation.  `ErrorFuture(None)` is complete with the VALUE None (see `C10_set_error_none`). -/
+theorem C10_const_complete (k : Kind) (hk : k.sinking = true) (ops : List Op) (hr : .reset ∉ ops) :
+    (init k).out = some (match k with | .const v => .val v | .error e => .err e | _ => .val 0) ∧
+    ∀ ob ∈ run (init k) ops, ob.after = (init k).out ∧ ob.cbs = [] ∧ ob.runs = 0 := by
+  cases k <;> simp [Kind.sinking] at hk <;> refine ⟨rfl, ?_⟩ <;> intro ob hob
+  all_goals
+    have h := (C10_stable_until_reset ops (init _) _ rfl hr).2.2 ob hob
+    exact ⟨h.1, h.2.1, h.2.2.1⟩
+
+/-- `set_error(None)` (and `ErrorFuture(None)`) complete the future with the VALUE None: on an uncomputed future it is
+    `set_value(None)`, on a computed one it is refused like every other set.  Holds by construction of the model (`step`);
+    it is stated to make the modelling decision visible - the correspondence run ties it to futures.py. -/
+theorem C10_set_error_none (f : Fut) :
+    step f .setErrorNone = step f (.setValue 0) ∧ (init .errorNone).out = some (.val 0) := by
+  constructor
+  · cases h : f.out <;> simp [step, h]
+  · rfl
 
 /-- a completion (uncomputed → computed, by any operation) notifies every subscriber exactly once, in
-    subscription order, and each sees the new outcome - WHATEVER the subscribers do while they are notified (raise,
-    unsubscribe themselves or another handler, subscribe a new handler, try to complete the future again) -/
+    subscription order, and each sees the new outcome and finds its own re-entrant set refused (`notif o`) - WHATEVER the
+    subscribers do while they are notified (raise, unsubscribe themselves or another handler, subscribe a new handler, try
+    to complete the future again).  What a subscriber sees is READ from the state of the future at the moment it is called
+    (`notifyOne`); that it is `some o` follows from `complete` storing before it notifies (lemma `complete_cbs`; a
+    subscriber called with the earlier state records `none`, see the examples).  That the real `set_value` / `set_error`
+    store before they call `_computed` is tied to the model by the correspondence run only. -/
 theorem C10_notify_once_after_visible (f : Fut) (op : Op) (o : Outc)
     (h0 : f.out = none) (h1 : (step f op).1.out = some o) :
     (step f op).2.2 = f.subs.map (notif o) := by
@@ -36,7 +80,7 @@ theorem C10_notify_once_after_visible (f : Fut) (op : Op) (o : Outc)
   case reset => simp_all
   case subscribe => split at h1 <;> simp_all
   case unsubscribe => (repeat' split at h1) <;> simp_all
-  all_goals (cases hk : f.kind <;> cases ha : f.alive <;> simp_all [compute, complete])
+  all_goals (cases hk : f.kind <;> cases ha : f.alive <;> simp_all [compute, complete_eq])
 
 /-- counting form: handler `j` is notified exactly as often as it is subscribed (once, for the harness' distinct ids),
     for every list of subscriber behaviours -/
@@ -56,7 +100,7 @@ theorem C10_subs_after_completion (f : Fut) (op : Op) (o : Outc)
   case reset => simp_all
   case subscribe => split at h1 <;> simp_all
   case unsubscribe => (repeat' split at h1) <;> simp_all
-  all_goals (cases hk : f.kind <;> cases ha : f.alive <;> simp_all [compute, complete])
+  all_goals (cases hk : f.kind <;> cases ha : f.alive <;> simp_all [compute, complete_eq])
 
 /-- handlers that do not touch the handler list (well-behaved, raising, re-entrant) all stay subscribed -/
 theorem C10_passive_subs_stay (subs : List Sub)
@@ -76,19 +120,99 @@ theorem C10_passive_subs_stay (subs : List Sub)
   exact key subs subs h
 
 /-- `unsubscribe` forgets the handler (first subscription of that identity) and nothing else; unsubscribing a handler
-    that is not subscribed raises and changes nothing; neither notifies anybody nor touches the outcome -/
+    that is not subscribed raises and changes nothing; neither notifies anybody nor touches the outcome.
+    (One unfolding of `step`: kept as a lemma, the claim with content is `C10_unsubscribed_not_notified`.) -/
 theorem C10_unsubscribe (f : Fut) (j : Nat) (hk : f.kind.sinking = false) :
     step f (.unsubscribe j) =
       if hasSub f.subs j then ({ f with subs := eraseSub f.subs j }, .unit, [])
       else (f, .raised .notSubscribed, []) := by
   simp [step, hk]
 
-/-- the provider / task body runs at most once per `reset_unsafe()` (plus once) over any history -/
+theorem not_mem_eraseSub (subs : List Sub) (j : Nat) (hnd : (subs.map (·.1)).Nodup) :
+    j ∉ (eraseSub subs j).map (·.1) := by
+  induction subs with
+  | nil => simp [eraseSub]
+  | cons s ss ih =>
+    simp only [List.map_cons, List.nodup_cons] at hnd
+    by_cases h : s.1 = j
+    · subst h; simpa [eraseSub] using hnd.1
+    · have := ih hnd.2
+      simp only [eraseSub, beq_iff_eq, h, if_false, List.map_cons, List.mem_cons, not_or]
+      exact ⟨fun e => h e.symm, this⟩
+
+theorem not_mem_of_hasSub_false (subs : List Sub) (j : Nat) (h : hasSub subs j = false) : j ∉ subs.map (·.1) := by
+  induction subs with
+  | nil => simp
+  | cons s ss ih =>
+    simp only [hasSub, List.any_cons, Bool.or_eq_false_iff, beq_eq_false_iff_ne] at h
+    simp only [List.map_cons, List.mem_cons, not_or]
+    exact ⟨fun e => h.1 e.symm, ih (by simpa [hasSub] using h.2)⟩
+
+/-- an unsubscribed handler is not notified by the next completion, whichever operation completes the future
+    (handlers subscribed once: `Nodup`; with a handler subscribed twice `list.remove` drops only the first subscription -
+    see the example below, which shows that the hypothesis is needed) -/
+theorem C10_unsubscribed_not_notified (f : Fut) (j : Nat) (hk : f.kind.sinking = false)
+    (hnd : (f.subs.map (·.1)).Nodup) (op : Op) (o : Outc)
+    (h0 : (step f (.unsubscribe j)).1.out = none) (h1 : (step (step f (.unsubscribe j)).1 op).1.out = some o) :
+    j ∉ ((step (step f (.unsubscribe j)).1 op).2.2).map (·.sub) := by
+  rw [C10_notify_once_after_visible _ op o h0 h1]
+  simp only [List.map_map, Function.comp_def, notif, C10_unsubscribe f j hk]
+  cases hh : hasSub f.subs j <;> simp only [if_true, if_false, Bool.false_eq_true]
+  · exact not_mem_of_hasSub_false _ _ hh
+  · exact not_mem_eraseSub _ _ hnd
+
+/-- necessity of `Nodup`: a handler subscribed twice and unsubscribed once is still notified (list.remove semantics) -/
+example : 1 ∈ ((step (step { (init (.lazyOk 1)) with subs := [(1, .good), (1, .good)] } (.unsubscribe 1)).1 .value).2.2).map
+    (·.sub) := by decide
+
+/-! ### how often the computation runs -/
+
+/-- per operation: the provider / task body runs at most once more, NEVER when the future is computed, and only in a
+    read (`value()`, call, `error()`) that finds the future uncomputed (any state `f`) -/
+theorem C10_runs_step (f : Fut) (op : Op) :
+    (step f op).1.runs ≤ f.runs + 1 ∧ (f.out.isSome → (step f op).1.runs = f.runs) ∧
+    ((step f op).1.runs = f.runs + 1 → f.out = none ∧ (op = .value ∨ op = .call ∨ op = .error)) :=
+  runs_step f op
+
+/-- **at most once until an explicit `reset_unsafe()`**: over any history without reset, from ANY state, the
+    computation runs at most once - and not at all if the future was computed at the start -/
+theorem C10_provider_once_epoch (f : Fut) (ops : List Op) (hr : .reset ∉ ops) :
+    (finalState f ops).runs ≤ f.runs + (if f.out.isSome then 0 else 1) := by
+  have h := runs_effResets ops f
+  have h0 : effResets f ops = 0 := by
+    have := effResets_le_count ops f
+    have hc : ops.count .reset = 0 := List.count_eq_zero.mpr hr
+    omega
+  have := used_le (finalState f ops)
+  have hu : used f = if f.out.isSome then 1 else 0 := rfl
+  split <;> simp_all <;> omega
+
+/-- over any history from construction: runs ≤ 1 + the number of resets THAT FOUND THE FUTURE COMPUTED (a
+    `reset_unsafe()` of an uncomputed future buys no further run) -/
 theorem C10_provider_once (k : Kind) (ops : List Op) :
-    (finalState (init k) ops).runs ≤ 1 + ops.count .reset := by
-  have := runs_bound k ops (watchInit k) (init k) (rel_init k)
-  have h0 : (watchInit k).resets = 0 := by cases k <;> rfl
+    (finalState (init k) ops).runs ≤ 1 + effResets (init k) ops := by
+  have h := runs_effResets ops (init k)
+  have := used_le (finalState (init k) ops)
+  have h0 : (init k).runs = 0 := by cases k <;> rfl
   omega
+
+/-- corollary in terms of the history alone -/
+theorem C10_provider_once_count (k : Kind) (ops : List Op) :
+    (finalState (init k) ops).runs ≤ 1 + ops.count .reset := by
+  have := C10_provider_once k ops
+  have := effResets_le_count ops (init k)
+  omega
+
+/-- the bound of `C10_provider_once` is attained ... -/
+example : (finalState (init (.lazyOk 1)) [.value, .reset, .value, .reset, .error]).runs = 3
+    ∧ effResets (init (.lazyOk 1)) [.value, .reset, .value, .reset, .error] = 2 := by decide
+/-- ... resets of an uncomputed future buy nothing ... -/
+example : (finalState (init (.lazyOk 1)) [.reset, .reset, .reset, .value, .value]).runs = 1
+    ∧ effResets (init (.lazyOk 1)) [.reset, .reset, .reset, .value, .value] = 0 := by decide
+/-- ... and the hypothesis "no reset" of the epoch theorem is needed -/
+example : ¬ (finalState (init (.lazyOk 1)) [.value, .reset, .value]).runs ≤ 0 + 1 := by decide
+
+/-! ### the observer -/
 
 /-- **C10 as a whole**: for every kind of future and every history of operations, the observations of the
     model are accepted by the observer `spec` - the same Boolean function the check evaluates on the
@@ -97,12 +221,41 @@ theorem C10_spec_holds (k : Kind) (ops : List Op) : spec k (run (init k) ops) = 
   obtain ⟨w', h⟩ := watchRun_ok k ops (watchInit k) (init k) (rel_init k)
   simp [spec, h]
 
-/-- ConstFuture and ErrorFuture are complete from construction -/
-theorem C10_const_complete (v e : Nat) :
-    (init (.const v)).out = some (.val v) ∧ (init (.error e)).out = some (.err e) := by
-  simp [init]
+/-- what the observer ENFORCES about the computation, for arbitrary observations (not only the model's): an accepted
+    observation shows at most one more run, none if the observer knows the future computed, and one more only for a
+    read of an uncomputed future that leaves it computed with the outcome of the future's own computation -/
+theorem C10_spec_enforces_runs (k : Kind) (w w' : Watch) (ob : Obs) (h : watchStep k w ob = .ok w') :
+    ob.runs ≤ w.runs + 1 ∧ (w.known.isSome → ob.runs = w.runs) ∧
+    (ob.runs = w.runs + 1 → w.known = none ∧ (ob.op = .value ∨ ob.op = .call ∨ ob.op = .error) ∧
+      ob.after = k.natural ∧ ob.after.isSome) := by
+  unfold watchStep at h
+  cases hkn : w.known <;> cases hop : ob.op <;> simp only [hkn, hop] at h <;>
+    (repeat' split at h) <;> simp_all [computeOk] <;> (try omega) <;>
+    (by_cases hr : ob.runs = w.runs <;> by_cases ht : (k.isTask = true ∧ w.done = true) <;> simp_all <;> (try omega))
 
-/-! non-vacuity: a concrete history with a raising subscriber, a failed set, a reset and a recomputation -/
+/-- what the observer ENFORCES about a computing read, for arbitrary observations: a read that finds the future
+    uncomputed and leaves it computed with `o` is accepted only if the computation ran exactly once and `o` is ITS outcome
+    (kinds other than an AsyncTask that was completed before: such a task has no generator left, see `computeOk`) -/
+theorem C10_spec_enforces_outcome (k : Kind) (w w' : Watch) (ob : Obs) (o : Outc) (h : watchStep k w ob = .ok w')
+    (hkn : w.known = none) (hop : ob.op = .value ∨ ob.op = .call ∨ ob.op = .error) (ha : ob.after = some o)
+    (ht : k.isTask = false ∨ w.done = false) : ob.runs = w.runs + 1 ∧ k.natural = some o := by
+  unfold watchStep at h
+  rcases hop with hop | hop | hop <;> simp only [hkn, hop, ha] at h <;>
+    (repeat' split at h) <;> simp_all [computeOk] <;>
+    (by_cases hr : ob.runs = w.runs <;> rcases ht with ht | ht <;> simp_all)
+
+/-- an accepted computing read reports the stored outcome, except for the two kind-specific answers of `freshReadOk` -/
+theorem C10_spec_enforces_read (k : Kind) (w w' : Watch) (ob : Obs) (o : Outc) (h : watchStep k w ob = .ok w')
+    (hop : ob.op = .value ∨ ob.op = .call ∨ ob.op = .error) (ha : ob.after = some o)
+    (hk : ∀ e, k ≠ .lazyErr e) (hk' : ∀ v v', k ≠ .lazySelfSet v v') :
+    ob.res = (if ob.op = .error then readError o else readValue o) := by
+  unfold watchStep at h
+  cases hkn : w.known <;> rcases hop with hop | hop | hop <;> simp only [hkn, hop, ha] at h <;>
+    (repeat' split at h) <;> cases k <;> simp_all [freshReadOk, readOk]
+
+/-! ## non-vacuity and rejection examples -/
+
+/-- a concrete history with a raising subscriber, a failed set, a reset and a recomputation -/
 example : spec (.lazyErr 2)
     (run (init (.lazyErr 2)) [.subscribe 1 .raising, .subscribe 2 .good, .error, .setValue 3, .value, .reset, .value]) = true := by
   decide
@@ -113,6 +266,22 @@ example : (run (init (.lazyErr 2)) [.subscribe 1 .raising, .subscribe 2 .good, .
 example : (run (init (.lazyOk 1)) [.subscribe 1 .good, .subscribe 2 .oneShot, .subscribe 3 .good, .subscribe 4 .good,
     .value, .reset, .value]).map (·.cbs.map (·.sub)) = [[], [], [], [], [1, 2, 3, 4], [], [1, 3, 4]] := by
   decide
+/-- `C10_stable_until_reset` is not vacuous: a computed state, a history with reads, sets, subscriptions -/
+example : (finalState (init (.lazyErr 2)) [.error]).out = some (.err 2) ∧
+    (run (finalState (init (.lazyErr 2)) [.error]) [.subscribe 1 .good, .setErrorNone, .value, .unsubscribe 1, .error]).map (·.res)
+      = [.unit, .raised .alreadyComputed, .raised (.user 2), .unit, .errIs (some 2)] := by decide
+/-- `C10_unsubscribed_not_notified` is not vacuous -/
+example : ((step (step (finalState (init (.lazyOk 1)) [.subscribe 1 .good, .subscribe 2 .good]) (.unsubscribe 1)).1 .value).2.2).map
+    (·.sub) = [2] := by decide
+/-- `set_error(None)`: one consistent outcome, the value None -/
+example : (run (init (.lazyOk 1)) [.setErrorNone, .error, .value, .isComputed, .setError 1]).map (·.res)
+    = [.unit, .errIs none, .ok 0, .bool true, .raised .alreadyComputed] := by decide
+example : (run (init .errorNone) [.error, .value]).map (·.res) = [.errIs none, .ok 0] := by decide
+/-- the subscribers see the outcome BECAUSE `complete` stores before it notifies: a subscriber called with the
+    state before the store records `none`, and the observer rejects that notification -/
+example : notifiedAll [(1, .good)] [notifyOne (init (.lazyOk 1)) (1, .good)] (.val 1) = false := by decide
+example : notifiedAll [(1, .reenter (.val 2))] [notifyOne (init (.lazyOk 1)) (1, .reenter (.val 2))] (.val 1) = false := by decide
+
 /-- the observer rejects the history in which the subscriber after the one-shot one is skipped -/
 example : spec (.lazyOk 1)
     [{ op := .subscribe 1 .oneShot, res := .unit, cbs := [], after := none, runs := 0 },
@@ -128,5 +297,57 @@ example : spec (.lazyOk 1)
 /-- the observer is not trivially true: it rejects a history in which a computed future changes its value -/
 example : spec (.const 1) [{ op := .value, res := .ok 2, cbs := [], after := some (.val 2), runs := 0 }] = false := by
   decide
+
+/-! the wrong observations of the audit (AUDIT-lib B5, /tmp/audit-lib/tests/C10_spec.lean), all accepted by the previous
+    observer (`runs ≤ 1 + resets`, fresh-relaxations for every kind), all rejected now -/
+
+/-- (a) ONE `value()` runs the provider three times after two resets of a never-computed future -/
+example : specClause (.lazyOk 1)
+    [{ op := .reset, res := .unit, cbs := [], after := none, runs := 0 },
+     { op := .reset, res := .unit, cbs := [], after := none, runs := 0 },
+     { op := .value, res := .ok 1, cbs := [], after := some (.val 1), runs := 3 }] = "provider-once@value" := by decide
+/-- (a2) the provider runs during `is_computed()` -/
+example : specClause (.lazyOk 1)
+    [{ op := .reset, res := .unit, cbs := [], after := none, runs := 0 },
+     { op := .isComputed, res := .bool false, cbs := [], after := none, runs := 1 }] = "provider-once@isComputed" := by decide
+/-- (a3) the provider runs in a `value()` that found the future computed -/
+example : specClause (.lazyOk 1)
+    [{ op := .reset, res := .unit, cbs := [], after := none, runs := 0 },
+     { op := .setValue 4, res := .unit, cbs := [], after := some (.val 4), runs := 0 },
+     { op := .value, res := .ok 4, cbs := [], after := some (.val 4), runs := 1 }] = "provider-once@value" := by decide
+/-- (f) a fresh `Future(lambda: 1)`: `value()` raises FutureIsAlreadyComputed, the provider never ran, the future holds 5 -/
+example : specClause (.lazyOk 1)
+    [{ op := .value, res := .raised .alreadyComputed, cbs := [], after := some (.val 5), runs := 0 }]
+      = "compute-outcome@value" := by decide
+/-- (f') ... the same with the provider run and the right outcome: the FutureIsAlreadyComputed answer is open for a
+    self-completing provider only -/
+example : specClause (.lazyOk 1)
+    [{ op := .value, res := .raised .alreadyComputed, cbs := [], after := some (.val 1), runs := 1 }]
+      = "compute-read@value" := by decide
+example : specClause (.lazySelfSet 1 2)
+    [{ op := .value, res := .raised .alreadyComputed, cbs := [], after := some (.val 1), runs := 1 }] = "ok" := by decide
+/-- (f2) the same for a task and `error()` -/
+example : specClause (.taskOk 1)
+    [{ op := .error, res := .raised .alreadyComputed, cbs := [], after := some (.err 5), runs := 0 }]
+      = "compute-outcome@error" := by decide
+/-- (g) `value()` returns a value the provider never returns -/
+example : specClause (.lazyOk 1)
+    [{ op := .value, res := .ok 7, cbs := [], after := some (.val 7), runs := 1 }] = "compute-outcome@value" := by decide
+/-- (g2) the provider raises, `value()` returns normally -/
+example : specClause (.lazyErr 1)
+    [{ op := .value, res := .ok 7, cbs := [], after := some (.val 7), runs := 1 }] = "compute-outcome@value" := by decide
+/-- `error()` raising the error it should report is an open answer for a raising PROVIDER only, not for a task -/
+example : specClause (.taskErr 1)
+    [{ op := .error, res := .raised (.user 1), cbs := [], after := some (.err 1), runs := 1 }] = "compute-read@error" := by decide
+example : specClause (.lazyErr 1)
+    [{ op := .error, res := .raised (.user 1), cbs := [], after := some (.err 1), runs := 1 }] = "ok" := by decide
+/-- (o) a recomputation after `reset_unsafe()` that produces the outcome without running the provider -/
+example : specClause (.lazyOk 1)
+    [{ op := .value, res := .ok 1, cbs := [], after := some (.val 1), runs := 1 },
+     { op := .reset, res := .unit, cbs := [], after := none, runs := 1 },
+     { op := .value, res := .ok 1, cbs := [], after := some (.val 1), runs := 1 }] = "compute-outcome@value" := by decide
+/-- `set_error(None)` must leave the future computed with the value None and refuse later sets -/
+example : specClause (.lazyOk 1)
+    [{ op := .setErrorNone, res := .unit, cbs := [], after := none, runs := 0 }] = "set@setErrorNone" := by decide
 
 end AsynqModel.Futures
